@@ -3,8 +3,10 @@
 History monitor on real flow objects of every type (http, http+response, http+error, websocket, tcp,
 udp, dns, dns+response).  A case is a random sequence of operations over a small population (the
 original flow plus up to two copies): edit (requests, responses, messages, metadata, markers,
-comments, errors, websocket data -- through the public attributes, including *in-place* mutation of
-nested containers), backup, revert, copy.
+comments, errors, websocket data, optional connection fields -- through the public attributes, including
+*in-place* mutation of nested containers and optional sub-objects appearing / disappearing: response,
+websocket, error, trailers, certificate lists, sni, server address ...), backup, revert, copy, set_state
+from another flow.
 
 The oracle does not use mitmproxy's state machinery to decide: ``observe(flow)`` reads every field an
 edit can touch through public attributes (dataclasses.asdict / Headers.fields / message attributes) and
@@ -20,14 +22,17 @@ deep-copies it.  The model keeps, per flow, the observation taken at the first b
  * backup     : backup() itself changes nothing observable; a second backup keeps the first.
  * copy       : fresh id (never seen in this case), not live, equal observation/state apart from id,
                 the source is unchanged.
+ * set_state  : f.set_state(g.get_state()) for two flows of the population makes f equal to g (observation, state, backup).
  * isolation  : an operation on one flow never changes the observation / state of any other flow of
                 the population (copy aliasing), checked after every operation.
 """
 import copy
 import dataclasses
 import ipaddress
+import os
 import traceback
 
+from mitmproxy import certs
 from mitmproxy import dns
 from mitmproxy import flow
 from mitmproxy import http
@@ -44,20 +49,20 @@ PROPERTY = "C40"
 LEVEL = "exploration"
 BUDGET = {"quick": (1500, 13), "thorough": (14_000, 200)}
 WORKERS = {"quick": 2, "thorough": 16}
-REQUIRED = ["modified", "revert_restores", "copy_fresh_equal", "isolation", "backup_is_silent"]
+REQUIRED = ["modified", "revert_restores", "copy_fresh_equal", "isolation", "backup_is_silent", "set_state_makes_equal"]
 ENGINE = "direct"
 TECHNIQUE = "model-based history monitor with an attribute-level observer"
 RULE = (
     "case = flow kind (http, http+resp, http+err, websocket, tcp, udp, dns, dns+resp) x a random sequence of 6-30 "
-    "operations (edit / backup / revert / copy) over the flow and up to 2 copies; edits draw from small value pools so that "
+    "operations (edit / backup / revert / copy / set_state from another flow) over the flow and up to 2 copies; edits include presence changes of optional sub-objects (response, websocket, error, trailers, connection fields); edits draw from small value pools so that "
     "no-op edits and edits that return to the backed-up value occur; distinct = (kind, set of edit families used, "
-    "#backups, #reverts, #copies, saw 'state equal to backup while backup present', saw revert-after-edit, saw edit-after-copy) "
+    "#backups, #reverts, #copies, #set_state, saw 'state equal to backup while backup present', saw revert-after-edit, saw edit-after-copy) "
     "signature; non-trivial = at least one backup or copy followed by an edit"
 )
 ASSUMPTIONS = [
     "backup() while a backup already exists keeps the first backup (the code's explicit `if not self._backup`)",
     "a copy inherits the source's backup; 'differs from its backup' is read literally, so the copy's fresh id counts as a difference",
-    "edits are made through public attributes of the flow and its parts; connection objects and timestamps of the flow are not edited",
+    "edits are made through public attributes of the flow and its parts (including optional fields of the two connection objects); the socket state of a connection is documented as not persisted and is not compared",
 ]
 LEVEL_TEXT = (
     "Random operation histories on real Flow objects of all five flow types are checked after every step against a small "
@@ -105,8 +110,36 @@ def obs_ws(w):
     }
 
 
+_CERTS = None
+
+
+def some_certs():
+    global _CERTS
+    if _CERTS is None:
+        base = os.path.join(os.environ.get("VERIF_REPO", "/repo"), "test/mitmproxy/net/data/verificationcerts")
+        _CERTS = [certs.Cert.from_pem(open(os.path.join(base, n), "rb").read()) for n in ("self-signed.crt", "trusted-chain.pem")]
+    return _CERTS
+
+
+def obs_val(v):
+    if isinstance(v, certs.Cert):
+        return ("cert", v.to_pem())
+    if isinstance(v, (list, tuple)):
+        return [obs_val(x) for x in v]
+    if v is None or isinstance(v, (bool, int, float, str, bytes)):
+        return v
+    return repr(v)  # proxy mode, enums: not edited, compared by repr
+
+
+def obs_conn(c):
+    """Every dataclass field of a connection except the (documented as not persisted) socket state."""
+    return {fld.name: obs_val(getattr(c, fld.name)) for fld in dataclasses.fields(c) if fld.name != "state"}
+
+
 def observe(f):
     o = {
+        "client_conn": obs_conn(f.client_conn),
+        "server_conn": obs_conn(f.server_conn),
         "id": f.id,
         "marked": f.marked,
         "comment": f.comment,
@@ -260,6 +293,47 @@ def e_http_response(r, f):
         f.response = tutils.tresp(status_code=r.choice([200, 404]))
 
 
+def e_ws_presence(r, f):
+    """Optional sub-object appears / disappears (an upgrade attaches WebSocketData to a flow that had none)."""
+    c = r.randrange(3)
+    if c == 0:
+        f.websocket = None
+    elif c == 1:
+        f.websocket = websocket.WebSocketData()
+    else:
+        f.websocket = tflow.twebsocket(messages=r.random() < 0.7)
+
+
+def e_conn(r, f):
+    """Presence / value changes of optional connection fields (None <-> value, empty <-> non-empty list)."""
+    c = f.client_conn if r.random() < 0.5 else f.server_conn
+    k = r.randrange(8)
+    if k == 0:
+        c.sni = r.choice([None, "example.com", "bücher.example"])
+    elif k == 1:
+        c.error = r.choice([None, "connection reset"])
+    elif k == 2:
+        c.certificate_list = r.choice([[], [some_certs()[0]], list(some_certs())])
+    elif k == 3:
+        if c is f.client_conn:
+            c.mitmcert = r.choice([None, some_certs()[0]])
+        else:
+            c.address = r.choice([None, ("address", 22), ("example.com", 443)])
+    elif k == 4:
+        c.timestamp_end = r.choice([None, 946681209.0])
+    elif k == 5:
+        c.alpn = r.choice([None, b"h2", b"http/1.1"])
+    elif k == 6:
+        c.tls_version = r.choice([None, "TLSv1.3"])
+        c.cipher = r.choice([None, "TLS_AES_256_GCM_SHA384"])
+    else:
+        # in place on a list-valued field
+        if not isinstance(c.cipher_list, list) or len(c.cipher_list) > 2:
+            c.cipher_list = []
+        else:
+            c.cipher_list.append("ECDHE-RSA-AES128-SHA")
+
+
 def e_ws(r, f):
     w = f.websocket
     c = r.randrange(6)
@@ -314,13 +388,13 @@ def e_dns(r, f):
         f.response.answers[0].ttl = r.choice([32, 60])
 
 
-COMMON = [("marked", e_marked), ("comment", e_comment), ("meta", e_meta_set), ("meta", e_meta_del), ("meta_nested", e_meta_nested), ("error", e_error)]
+COMMON = [("marked", e_marked), ("comment", e_comment), ("meta", e_meta_set), ("meta", e_meta_del), ("meta_nested", e_meta_nested), ("error", e_error), ("conn", e_conn)]
 
 
 def edits_for(f):
     ops = list(COMMON)
     if isinstance(f, http.HTTPFlow):
-        ops += [("http_line", e_http_line), ("http_headers", e_http_headers), ("http_headers", e_http_headers), ("http_body", e_http_body), ("http_response", e_http_response)]
+        ops += [("http_line", e_http_line), ("http_headers", e_http_headers), ("http_headers", e_http_headers), ("http_body", e_http_body), ("http_response", e_http_response), ("ws_presence", e_ws_presence)]
         if f.websocket is not None:
             ops += [("ws", e_ws)] * 3
     elif isinstance(f, (tcp.TCPFlow, udp.UDPFlow)):
@@ -388,7 +462,7 @@ def run_case(ctx, r, kind):
     ids_seen = {f0.id}
     hist = []
     fam_used = set()
-    n_backup = n_revert = n_copy = 0
+    n_backup = n_revert = n_copy = n_adopt = 0
     saw_equal_with_backup = saw_revert_after_edit = saw_edit_after_copy = False
     edit_after_backup_or_copy = False
     dirty = {}  # name -> edited since backup
@@ -487,7 +561,7 @@ def run_case(ctx, r, kind):
                 ctx.count("revert_without_backup_noop")
                 if (o, (s, b)) != before[t.name]:
                     ctx.violation("revert-without-backup-changed-flow", witness({"flow": t.name}), None)
-        elif len(pop) < 3:
+        elif len(pop) < 3 and (len(pop) < 2 or r.random() < 0.6):
             hist.append(f"{t.name}.copy")
             n_copy += 1
             g = t.f.copy()
@@ -521,7 +595,24 @@ def run_case(ctx, r, kind):
             # the source must be unchanged: handled by check_all with target = the new copy
             t = tg
         else:
-            hist.append("noop")
+            # set_state(get_state of another flow of the population): afterwards the two are equal in every respect
+            src = r.choice([x for x in pop if x is not t])
+            hist.append(f"{t.name}.set_state({src.name}.get_state())")
+            n_adopt += 1
+            t.f.set_state(src.f.get_state())
+            ctx.count("set_state_makes_equal")
+            o, (st, b) = observe(t.f), swb(t.f)
+            so, (ss, sb) = before[src.name]
+            if o != so or st != ss or b != sb:
+                ctx.violation(
+                    "set-state-not-exact",
+                    witness({"flow": t.name, "source": src.name, "diff_keys": [k for k in o if o[k] != so.get(k)], "state_diff_keys": [k for k in st if st[k] != ss.get(k)], "backup_equal": b == sb}),
+                    None,
+                )
+            t.has_backup = src.has_backup
+            t.obs_b = copy.deepcopy(src.obs_b)
+            t.state_b = copy.deepcopy(src.state_b)
+            dirty[t.name] = dirty.get(src.name, False)
         check_all(t, before)
     sig = (
         kind,
@@ -529,6 +620,7 @@ def run_case(ctx, r, kind):
         min(n_backup, 3),
         min(n_revert, 3),
         n_copy,
+        min(n_adopt, 2),
         saw_equal_with_backup,
         saw_revert_after_edit,
         saw_edit_after_copy,
